@@ -230,3 +230,17 @@ TEXT["C10"] = dict(
                "Exploration: held on the schedules generated.",
     level_note="trusts the shim's fidelity and sequential consistency of controlled schedules; termination only as absence "
                "of deadlock states / watchdog expiry on the explored schedules")
+TEXT["C12"] = dict(
+    engine="dsched",
+    design_ref="DESIGN.md section 4, C12",
+    technique="runtime model monitor (count == number of handles, live objects == referenced objects, destruction registry) after every handle operation under ASan; concurrent histories under the controlled scheduler (reference-count operations are scheduling points) and under TSan/ASan with jitter",
+    level_text="Sequential histories mix every way of creating, copying, moving, converting, swapping, resetting and "
+               "unifying handles, including all aliasing shapes (self-assignment, assignment between two handles of one "
+               "object, moving from an alias, a second handle made from a raw pointer). After each step the expected "
+               "target of every handle, the reference count of every referenced object and the exact set of live "
+               "objects are compared with what the real handles report; a registry keyed by address plus ASan catch "
+               "double and missing destruction. Concurrent histories run under thousands of controlled schedules in "
+               "which each atomic counter operation can be interleaved, and on real threads under TSan/ASan. "
+               "Exploration: held on the histories and schedules generated.",
+    level_note="trusts the registry/ledger and the shim's fidelity; sequentially consistent schedules only, TSan for "
+               "missing synchronisation")
